@@ -19,6 +19,11 @@ CLAIMS = {
     "C16": ("def-use + template matching on framing sites, CFG path search in the receiver", "Writer half decided completely (announced length = UTF-8 byte length of the body written, frame layout, UTF-8 + flush, binary std streams); reader half structurally (every header line reaches the Content-Length parser, body read only with a known length, bytes cut before decoding); URI quote/unquote pairing. Not decided: behaviour of the underlying buffered stream under partial reads."),
 }
 
+CLAIMS.update({
+    "C17": ("package-wide effect inventory (import-resolved references) + call-graph reachability + dominating guards", "The complete syntactic inventory of evaluation/process/file-write/network primitives of the package and its reachability from the server entry points is decided for all inputs (inputs do not change which primitives the code can call): no dynamic evaluation with computed arguments anywhere, no reachable file write except the debug log under its option, network/process effects only behind disable_autoupdate with constant targets. Not decided: effects inside third-party libraries (json5, packaging) or through reflection."),
+    "C19": ("table agreement between argparse declarations and configuration loaders + handler coverage", "Option tables of cli() and the three loaders agree (every effective option loadable, key = attribute, default = current command-line value, set-valued options wrapped), derived state recomputed, consumers after the load, the loader's try covers OSError/ValueError/TypeError/AttributeError with a message and no re-raise. Not decided: that an option has the same downstream effect on both channels; partial application when a loader fails midway."),
+})
+
 NA_REASON = "check under construction in this round (rules designed in DESIGN.md section 3, not yet implemented); will move to checks once its rules run"
 
 
